@@ -34,7 +34,9 @@ for i, z in enumerate(zones):
     e = Event(); e.add('uid', 'u%d' % i); e.add('summary', 's', parameters={'x-b': 'b', 'language': 'en', 'altrep': 'x'})
     e.start = datetime(2021, 3, 1 + i, 10, tzinfo=ZoneInfo(z)); e.end = datetime(2021, 3, 1 + i, 11, tzinfo=ZoneInfo(z))
     e.add('categories', ['a', 'b']); e.add('rrule', {'freq': ['DAILY'], 'count': [3], 'byday': ['MO', 'TU']})
-    e.add('rdate', [datetime(2021, 4, 1, 10, tzinfo=ZoneInfo(z))]); e.add('x-z', 'v'); e.add('attendee', 'mailto:a@b', parameters={'cn': 'A', 'role': 'CHAIR'})
+    e.add('rdate', [datetime(2021, 4, 1, 10, tzinfo=ZoneInfo(z))]); e.add('x-z', 'v');
+    e.add('exdate', [datetime(2021, 5, 1, 10, tzinfo=ZoneInfo(zz)) for zz in zones[i:] + zones[:i]])   # a list that mixes zones
+    e.add('x-slot-7', 'a'); e.add('x-slot-07', 'b'); e.add('x-slot-007', 'c'); e.add('attendee', 'mailto:a@b', parameters={'cn': 'A', 'role': 'CHAIR'})
     a = Alarm(); a.TRIGGER = timedelta(minutes=-5); e.add_component(a); cal.add_component(e)
 cal.add_missing_timezones(first_date=date(2020, 1, 1), last_date=date(2022, 1, 1))
 b = cal.to_ical() + cal.to_ical(sorted=False)
@@ -122,9 +124,14 @@ def check_permutations(ctx, rng):
             ('location', 'L', None), ('sequence', 3, None), ('attendee', 'mailto:a', {'cn': 'A'}),
             ('attendee', 'mailto:b', {'role': 'R', 'cn': 'B'}), ('comment', 'c1', None), ('comment', 'c2', None),
             ('rrule', {'freq': ['DAILY'], 'count': [2]}, None), ('dtstamp', datetime(2020, 1, 1), None),
-            ('categories', ['x', 'y'], None), ('priority', 1, None), ('description', 'D', None)]
+            ('categories', ['x', 'y'], None), ('priority', 1, None), ('description', 'D', None),
+            # names that differ only in case-insensitive-irrelevant ways a "smart" sort key might conflate
+            ('x-slot-7', 'a', None), ('x-slot-07', 'b', None), ('x-slot-007', 'c', None), ('x-a', '1', None),
+            ('x-A1', '2', None), ('x-a01', '3', None), ('X-b_2', '4', None), ('x-b-2', '5', None)]
     k = rng.randint(2, 6)
     spec = rng.sample(pool, k)
+    if rng.random() < 0.4:
+        spec = rng.sample(pool[-8:], min(k, 4)) + rng.sample(pool[:-8], max(0, k - 4))
     base = build_event(spec, range(k)).to_ical()
     names = [s[0] for s in spec]
     perms = list(itertools.permutations(range(k))) if k <= 5 else [rng.sample(range(k), k) for _ in range(60)]
